@@ -238,7 +238,7 @@ func init() {
 				bounds: pick(tier, mc.Bounds{MaxDepth: 6, MaxDev: 2, Budget: 80 * time.Second, CrashAfterStore: true, NoCrashFirst: true}, mc.Bounds{MaxDepth: 8, MaxDev: 3, Budget: 10 * time.Minute}),
 				tweak: func(f *Family) {
 					// the refund (or claim) broadcast may fail once, or for longer than the retry budget
-					f.Cfg.Flags.Faults = []string{f.Cfg.Chain + ".spend", f.Cfg.Chain + ".spend*25", "msg.send*25"}
+					f.Cfg.Flags.Faults = []string{f.Cfg.Chain + ".spend", f.Cfg.Chain + ".spend*25", "msg.send*25", "store.update", "store.update#2"} // and a store write (the next one, or the one after it) may fail
 				}})
 		},
 		Oracles:      []scn.Oracle{oracleC22},
